@@ -2,7 +2,7 @@
 C14 - probed system description and derived machine model match the machine.
 Property theorems; long proofs live in RigModel/Lemmas/C14.lean.
 -/
-import RigModel.Lemmas.C14f
+import RigModel.Lemmas.C14g
 set_option linter.unusedSimpArgs false
 set_option linter.unusedVariables false
 
@@ -181,6 +181,61 @@ example : ∃ rd : Rd, ChainIn rd 4 [⟨100, 1, 2, 3, [65, 66, 67, 68]⟩, ⟨20
   refine ⟨fun a _ => if a = 100 then blockBytes ⟨100, 1, 2, 3, [65, 66, 67, 68]⟩ 200
                     else blockBytes ⟨200, 0, 0, 9, [69, 70, 71, 72]⟩ 0, ?_, by decide⟩
   simp [ChainIn, chainNext]
+
+/- **Status block** - full statement (NOT proved, validated by correspondence and the `core_ok` oracle):
+     theorem status_block (s : Status) (swTop : Nat) (name16 pad : List Nat) (h : all fields within their
+       widths, cpu_state / rt_code valid codes, strip0 name16 = s.appName ASCII, |name16| = |pad| = 16) :
+       decodeStatus (statusBytes s swTop name16 pad) = .ok s
+   What is proved is the layout half: every field of the vcpu struct (table regenerated from
+   sark.struct) is unpacked from its documented position of the 128-byte block.  Missing: the
+   renaming / enum conversion / version split that follows (straight-line code over this list). -/
+/-- **Status block, layout half.** Unpacking the 128-byte vcpu block that the machine specification
+lays out yields, for every field of the (regenerated) vcpu struct table, the little-endian value of
+exactly that field's bytes. -/
+theorem status_fields_partial (r0 r1 r2 r3 r4 r5 r6 r7 u0 u1 u2 u3 : Nat) (s : Status) (swTop : Nat)
+    (name16 pad : List Nat) (hn : name16.length = 16) (hp : pad.length = 16)
+    (hr : s.registers = [r0, r1, r2, r3, r4, r5, r6, r7]) (hu : s.userVars = [u0, u1, u2, u3]) :
+    unpackFields (statusBytes s swTop name16 pad) VCPU_FIELDS = .ok
+      [("r0", .int (leVal (le32 r0))), ("r1", .int (leVal (le32 r1))), ("r2", .int (leVal (le32 r2))),
+       ("r3", .int (leVal (le32 r3))), ("r4", .int (leVal (le32 r4))), ("r5", .int (leVal (le32 r5))),
+       ("r6", .int (leVal (le32 r6))), ("r7", .int (leVal (le32 r7))), ("psr", .int (leVal (le32 s.psr))),
+       ("sp", .int (leVal (le32 s.sp))), ("lr", .int (leVal (le32 s.lr))), ("rt_code", .int (leVal [s.rtCode])),
+       ("phys_cpu", .int (leVal [s.physCpu])), ("cpu_state", .int (leVal [s.cpuState])),
+       ("app_id", .int (leVal [s.appId])), ("mbox_ap_msg", .int (leVal (le32 s.mboxApMsg))),
+       ("mbox_mp_msg", .int (leVal (le32 s.mboxMpMsg))), ("mbox_ap_cmd", .int (leVal [s.mboxApCmd])),
+       ("mbox_mp_cmd", .int (leVal [s.mboxMpCmd])), ("sw_count", .int (leVal (le16 s.swCount))),
+       ("sw_file", .int (leVal (le32 s.swFile))), ("sw_line", .int (leVal (le32 s.swLine))),
+       ("time", .int (leVal (le32 s.time))), ("app_name", .str name16), ("iobuf", .int (leVal (le32 s.iobuf))),
+       ("sw_ver", .int (leVal [s.version.2.2, s.version.2.1, s.version.1, swTop])),
+       ("__PAD", .int (leVal (pad.take 4))), ("user0", .int (leVal (le32 u0))), ("user1", .int (leVal (le32 u1))),
+       ("user2", .int (leVal (le32 u2))), ("user3", .int (leVal (le32 u3)))] :=
+  unpackFields_statusBytes r0 r1 r2 r3 r4 r5 r6 r7 u0 u1 u2 u3 s swTop name16 pad hn hp hr hu
+
+/-- little-endian words and half words read back as their value -/
+theorem le_values (n : Nat) : (n < 4294967296 → leVal (le32 n) = n) ∧ (n < 65536 → leVal (le16 n) = n) ∧ leVal [n] = n :=
+  ⟨leVal_le32 n, leVal_le16 n, leVal_one n⟩
+
+/-- **Router counters.** Sixteen little-endian words are read back as their values. -/
+theorem router_counters (ws : List Nat) (h16 : ws.length = 16) (hb : ∀ w ∈ ws, w < 4294967296) (rd : Rd)
+    (hrd : rd ROUTER_DIAG_ADDR ROUTER_DIAG_LEN = ws.flatMap le32) : routerDiagnostics rd = .ok ws := by
+  have hw : ∀ (n : Nat) (l : List Nat), l.length = n → (∀ w ∈ l, w < 4294967296) → words n (l.flatMap le32) = .ok l := by
+    intro n
+    induction n with
+    | zero => intro l hl _; cases l with | nil => rfl | cons _ _ => simp at hl
+    | succ k ih =>
+      intro l hl hb'
+      cases l with
+      | nil => simp at hl
+      | cons a t =>
+        have ha := hb' a (by simp)
+        have e1 : List.take 4 (le32 a ++ List.flatMap le32 t) = le32 a := by simp [le32]
+        have e2 : List.drop 4 (le32 a ++ List.flatMap le32 t) = List.flatMap le32 t := by simp [le32]
+        have e3 : (le32 a).length = 4 := by simp [le32]
+        simp only [List.flatMap_cons, words, e1, e2, e3, ne_eq, not_true, if_false,
+          ih t (by simpa using hl) (fun w hw' => hb' w (by simp [hw'])), leVal_le32 a ha]
+  unfold routerDiagnostics
+  rw [hrd]
+  exact hw 16 ws h16 hb
 
 /-- **Software version, both encodings.** The reply the machine specification builds - legacy
 (version = major * 100 + minor in the top half of arg2) or string (top half 0xFFFF, data = name NUL
